@@ -289,6 +289,20 @@ def build_geo(recipe):
                 g.rotate(step[1], None if step[2] is None else np.array(step[2], dtype=float))
             elif op == 'translate':
                 g.translate(np.array(step[1], dtype=float))
+            elif op == 'query':
+                # the geometry is searched in its present position (results ignored) before it is moved again: what a search
+                # shows afterwards must not depend on searches made earlier on the same object
+                b = g.bounds
+                lo, hi = np.array(b[0], dtype=float), np.array(b[1], dtype=float)
+                qt = g.column_quadtree()
+                for fx, fy in ((0.5, 0.5), (0.13, 0.77), (0.91, 0.09), (1.5, 0.5)):
+                    pt = lo + (hi - lo) * np.array([fx, fy])
+                    g.column_containing_point(pt)
+                    g.column_containing_point(pt, qtree=qt)
+                    g.block_name_containing_point(np.array([pt[0], pt[1], g.layerlist[-1].centre]))
+                g.column_track([lo - 0.01 * (hi - lo), hi + 0.01 * (hi - lo)])
+                for col in g.columnlist:
+                    col.bounding_box
             elif op == 'delete':
                 for nm in [g.columnlist[i].name for i in step[1]]:
                     g.delete_column(nm)
@@ -350,8 +364,12 @@ def recipes(ctx, rng):
         steps = []
         if rng.random() < 0.4:
             steps.append(['refine', sorted(rng.sample(range(nx * ny), 2))])
+        if k % 2 == 1:
+            steps.append(['query'])
         if rng.random() < 0.3:
             steps.append(['translate', [float(rng.choice([1e7, -3e5, 4096])), float(rng.choice([1e7, 65536, -8])), 0.]])
+            if k % 4 == 3:
+                steps.append(['query'])
         steps.append(['rotate', ang, centre])
         r = dict(kind='rect', dx=dyadic_sizes(rng, nx, rng.random() < 0.5), dy=dyadic_sizes(rng, ny, rng.random() < 0.5), dz=[2.0, 2.0, 4.0], steps=steps)
         out.append(('rotated', r, False))
@@ -360,7 +378,7 @@ def recipes(ctx, rng):
     for nm in names:
         out.append(('shipped-' + nm, dict(kind='shipped', name=nm, steps=[]), False))
     if not q or rng.random() < 0.5:
-        out.append(('shipped-rotated', dict(kind='shipped', name='g7', steps=[['rotate', rng.choice([90, 30, 180]), None]]), False))
+        out.append(('shipped-rotated', dict(kind='shipped', name='g7', steps=[['query'], ['rotate', rng.choice([90, 30, 180]), None]]), False))
     if not q or rng.random() < 0.5:
         out.append(('shipped-refined', dict(kind='shipped', name='g7', steps=[['refine', sorted(rng.sample(range(108), 12))]]), False))
     # domains with holes / concave outlines: outside the property's list of geometry classes; correspondence and
